@@ -242,10 +242,14 @@ def run(ctx):
                                             "why": "name longer than limit although it has more than one word"})
     # independent oracle on a sample of accepted / produced names
     rng = ctx.rng
-    sample = [n for _, n in produced]
+    os.makedirs(os.path.join(common.CACHE, "run"), exist_ok=True)
+    # uniquify only appends a suffix: its result can be judged only when the name it was given is
+    # itself acceptable (the generator also feeds it raw, invalid names to test totality)
+    uniq_inputs = sorted({m[1] for m, _ in produced if m[0] == "uniquify"})
+    bad_inputs = set(git_check_names(uniq_inputs, os.path.join(common.CACHE, "run"))) if uniq_inputs else set()
+    sample = [n for m, n in produced if not (m[0] == "uniquify" and m[1] in bad_inputs)]
     rng.shuffle(sample)
     sample = sample[:n_git]
-    os.makedirs(os.path.join(common.CACHE, "run"), exist_ok=True)
     bad = git_check_names(sample, os.path.join(common.CACHE, "run"))
     for n in bad:
         oracle_failures.append({"why": "git check-ref-format rejects a name stg accepted/produced", "name": n})
